@@ -61,6 +61,7 @@ import (
 	"errors"
 	"fmt"
 	"net"
+	"strings"
 	"sync"
 	"time"
 
@@ -373,7 +374,37 @@ func (c *Client) Register(topic string) error {
 	}
 }
 
-func (c *Client) subscribe(topicName string, topicIDType uint8, topicID uint16, qos uint8, callback MessageHandlerFunc) error {
+func (c *Client) subscribe(topicName string, topicIDType uint8, topicID uint16, qos uint8, callback MessageHandlerFunc) (err error) {
+	// The MQTT broker may send messages matching the subscription before
+	// its SUBACK (e.g. retained ones), hence the callback must be in place
+	// before the SUBSCRIBE is sent. If the subscription fails, the previous
+	// callback of the topic (if any) is restored.
+	var filter string
+	filterKnown := true
+	switch topicIDType {
+	case pkts1.TIT_STRING:
+		filter = topicName
+	case pkts1.TIT_PREDEFINED:
+		filter, filterKnown = c.cfg.PredefinedTopics.GetTopicName(c.cfg.ClientID, topicID)
+	case pkts1.TIT_SHORT:
+		filter = pkts.DecodeShortTopic(topicID)
+	default:
+		filterKnown = false
+	}
+	if filterKnown {
+		route := strings.Split(filter, "/")
+		previous := c.messageHandlers.swap(route, callback)
+		defer func() {
+			if err != nil {
+				if previous != nil {
+					c.messageHandlers.store(route, previous.callback)
+				} else {
+					c.messageHandlers.delete(route)
+				}
+			}
+		}()
+	}
+
 	msgID, _ := c.msgID.Next()
 	transaction := newSubscribeTransaction(c, msgID, callback)
 	subscribe := pkts1.NewSubscribe(topicName, topicID, false, qos, topicIDType)
